@@ -56,8 +56,15 @@ class _Sub:
         return self.sc.sub("mc-%s-%s" % (self.tag, name))
 
 
+def _jenv(sc, **kw):
+    """TLC unpacks its standard modules into java.io.tmpdir and leaves them there: keep that
+    inside the scratch directory"""
+    kw["JAVA_TOOL_OPTIONS"] = "-Djava.io.tmpdir=" + sc.sub("jtmp")
+    return kw
+
+
 def _mc_one(cfg, sc, workers, timeout):
-    r = vlib.tlc("MC_TimerHeap.tla", cfg, _Sub(sc), workers=workers, timeout=timeout, xmx="4g")
+    r = vlib.tlc("MC_TimerHeap.tla", cfg, _Sub(sc), workers=workers, timeout=timeout, xmx="4g", env=_jenv(sc))
     cov = collections.Counter()
     for ln in vlib.printed(r["out"], "COV"):          # "COV <op> <class1> <class2>" per transition
         op, c1, c2 = ln.split()
@@ -134,10 +141,10 @@ def lock_script(sid, rnd, small=False):
     return "\n".join(L) + "\n"
 
 
-def mon_script(sid, rnd, size):
+def mon_script(sid, rnd, size, maxid=None):
     """population up to `size`, crossing 128 (and 16384 if size allows) both ways"""
     seed = rnd.randrange(1, 2 ** 31)
-    maxid = min(19900, size + size // 6 + 200)
+    maxid = maxid or min(19900, size + size // 6 + 200)
     lo, hi = rnd.choice([(0, 4 * size), (0, 250), (0, 400000), (1000, 1000 + size // 2)])
     q = (hi - lo) // 4
     big = size > 16384 + 200
@@ -183,7 +190,7 @@ def gen_scripts(tier, rnd):
         for i in range(10):
             mon.append((mon_script("B%d" % i, rnd, 17000), 17000))
         for i in range(24):
-            mon.append((mon_script("M%d" % i, rnd, rnd.choice([600, 2000, 5000])), 5000))
+            mon.append((mon_script("M%d" % i, rnd, rnd.choice([600, 2000, 5000]), maxid=6000), 5000))
     return lock, mon
 
 
@@ -252,7 +259,7 @@ def validate(tfs, sc):
         nlines = sum(1 for _ in open(tf))
         if nlines == 0:
             return [], 0
-        r = vlib.tlc("TraceTimerHeap.tla", "TraceTimerHeap.cfg", _Sub(sc), workers=1, env={"TRACE": tf},
+        r = vlib.tlc("TraceTimerHeap.tla", "TraceTimerHeap.cfg", _Sub(sc), workers=1, env=_jenv(sc, TRACE=tf),
                      timeout=1500, xmx="3g")
         if r["distinct"] != nlines + 1 or r["violated"]:
             raise vlib.MachineryError("trace %s not fully consumed: %d lines, %d states, violated=%s\n%s" %
